@@ -1,4 +1,4 @@
-\* exhaustive: every nesting of the five grid kinds up to three deep, two sample cells per grid
+\* exhaustive: every nesting of the eight grid kinds up to three deep, two sample cells per grid
 CONSTANTS Depth = 3  NIdx = 2  MaxLevel = 30
 INIT Init
 NEXT Next
@@ -9,6 +9,7 @@ INVARIANT GlobalIsSumOfLocals
 INVARIANT CompleteIndicesRule
 INVARIANT CellsAreAffine
 INVARIANT GlobalBoxAroundCentre
+INVARIANT NativeIsXYZWithoutTrz
 INVARIANT MoveShiftsSubtree
 PROPERTY RefusalsChangeNothing
 CHECK_DEADLOCK FALSE
